@@ -208,8 +208,21 @@ def gen_history(rng, tier, forced_sizes, allow_real):
     share_image_path = rng.random() < 0.3      # the boots of this history name one image / struct file path,
     share_struct_path = rng.random() < 0.3     # rewritten in place between them
     for i in range(ncalls):
-        c = dict(via="mc" if rng.random() < 0.15 else "func", host="127.0.0.%d" % rng.randint(1, 6),
+        c = dict(via="mc" if rng.random() < 0.25 else "func", host="127.0.0.%d" % rng.randint(1, 6),
                  port=rng.choice([None, None, None, 54321, 17, 65535]), kwargs=[], overrides=None, tags=[])
+        if c["via"] == "mc":
+            # one of a few controllers of this process (a controller keeps its host), created with or without
+            # structs=; sometimes with the deprecated (ignored) width / height arguments
+            c["ctrl"] = rng.randrange(3)
+            c["host"] = "127.0.0.%d" % (10 + c["ctrl"])
+            c["structs_given"] = c["ctrl"] == 2
+            r = rng.random()
+            if r < 0.2:
+                c["width"], c["height"] = rng.choice([(2, 2), (8, 8), (12, 24), (255, 255), (0, 0)])
+                c["tags"].append("controller:width+height")
+            elif r < 0.3:
+                c[rng.choice(["width", "height"])] = rng.choice([1, 8, 48])
+                c["tags"].append("controller:width-or-height")
         # image
         r = rng.random()
         if forced_sizes and i == 0:
@@ -373,10 +386,11 @@ def oracle_call(h, i, out, presets):
     values.update(unix_time=t1, boot_sig=t2, root_chip=1)
     misfit = sorted(n for n, f in sv["fields"].items() if not value_ok(f[0], values[n]))
     c["_in_domain"] = not misfit
+    c["_values"] = values
     if misfit:
         # A value that its field cannot hold cannot be carried by the configuration area: the boot may refuse
         # (the code raises before anything is sent); it must not return normally having sent an image.
-        if o["result"][0] != "ok":
+        if o["result"][0] == "error" or (o["result"][0] == "cli" and not o["datagrams"]):
             return None
         n = misfit[0]
         w = KINDS[sv["fields"][n][0]][1]
@@ -388,13 +402,13 @@ def oracle_call(h, i, out, presets):
                 sent = int.from_bytes(area[off:off + w], "little")
         except Exception:
             pass
-        rep = [r[3] for r in o["result"][1]["fields"] if r[0] == n]
+        rep = [r[3] for r in (o["result"][1] or dict(fields=[]))["fields"] if r[0] == n]
         return ("unrepresentable-option-sent",
                 "boot returned normally after sending %d datagrams although %s=%r does not fit its %d-byte field: "
                 "the configuration area%s cannot hold this call's value, the returned structs report %r"
                 % (len(o["datagrams"]), n, values[n], w,
                    "" if sent is None else " holds %d there and" % sent, rep[0] if rep else None))
-    if o["result"][0] != "ok":
+    if o["result"][0] not in ("ok", "cli"):
         return ("boot-raised-on-valid-input", "boot raised %s (%s) on a valid image and valid options"
                 % (o["result"][1], o["result"][2]))
     # the datagram sequence
@@ -451,6 +465,8 @@ def oracle_call(h, i, out, presets):
                     % ", ".join(diff))
         return ("config-area-wrong", "configuration area byte %d (image byte %d) is %d, expected %d"
                 % (k, 384 + k, got[384 + k], config[k]))
+    if o["result"][0] == "cli":       # the command-line tool returns no struct definitions
+        return None
     # the returned struct definitions
     ret = o["result"][1]
     meta = [[n, python_pack(f[0]), f[1], f[3]] for n, f in sv["fields"].items()]
@@ -546,7 +562,9 @@ def canon_impl(h, out):
         for d in o["datagrams"]:
             b = bytes.fromhex(d)
             dgs.append([len(b), digest(b)])
-        if o["result"][0] == "ok":
+        if o["result"][0] == "cli":
+            res = ["cli"]
+        elif o["result"][0] == "ok":
             res = ["ok", [f[3] for f in o["result"][1]["fields"]]]
         else:
             res = ["OtherError"]
@@ -724,12 +742,52 @@ def run(chk, args):
                         else dict(kwargs=[[nm, v]])
                     histories.append(dict(slots=[], calls=[simple(3, 1024, 5, 1474848000, **opt),
                                                            simple(4, 1024, 5, 1474848000)]))
+        # ... boots through several controllers of one process: each controller's structs must keep describing
+        # its own last boot; with and without structs=, the deprecated width / height (ignored per the docs),
+        # presets, keywords, sv_overrides, a re-boot of an earlier controller
+        def mcboot(ctrl, seed, t, **kw):
+            c = simple(10 + ctrl, 1024, seed, t, via="mc", ctrl=ctrl, **kw)
+            c["tags"] = ["family", "controller:sequence"]
+            return c
+        for given in ([False, False, False], [True, False, True], [True, True, True]):
+            sg = lambda k: dict(structs_given=given[k])
+            histories.append(dict(slots=[], calls=[
+                mcboot(0, 1, 1474848000, preset_kwargs=3, **sg(0)), mcboot(1, 2, 1474848010, preset_kwargs=5, **sg(1)),
+                mcboot(2, 3, 1474848020, **sg(2))]))
+            histories.append(dict(slots=[], calls=[
+                mcboot(0, 1, 1474848000, kwargs=[["cpu_clk", 150]], **sg(0)),
+                mcboot(1, 2, 1474848010, overrides=dict(fresh=[["led0", 7], ["boot_delay", 3]]), **sg(1)),
+                mcboot(0, 4, 1474848020, preset_kwargs=2, **sg(0)), mcboot(1, 5, 1474848030, **sg(1))]))
+            histories.append(dict(slots=[], calls=[
+                mcboot(0, 1, 1474848000, **sg(0)), mcboot(1, 2, 1474848010, preset_kwargs=1, **sg(1)),
+                simple(3, 1024, 9, 1474848020, preset_kwargs=4),
+                mcboot(2, 3, 1474848030, kwargs=[["no_such_field", 1]], **sg(2))]))
+        for wh in (dict(width=2, height=2), dict(width=8, height=8), dict(width=12, height=24), dict(width=48),
+                   dict(height=24), dict(width=0, height=0), dict(width=255, height=255)):
+            for extra in ({}, dict(preset_kwargs=5), dict(kwargs=[["p2p_dims", 0x0303]])):
+                c1 = mcboot(0, 1, 1474848000, **dict(wh, **extra))
+                c1["tags"] = ["family", "controller:width+height" if len(wh) == 2 else "controller:width-or-height"]
+                histories.append(dict(slots=[], calls=[c1, mcboot(1, 2, 1474848010)]))
+        # ... the command-line tool rig-boot HOST [--spinN]: judged against the documented preset of the flag
+        documented = {1: 0x00076104, 2: 0x00006103, 3: 0x00000502, 4: 0x00000001, 5: 0x00000001}
+        def cli(host, n):
+            return dict(via="cli", host="127.0.0.%d" % host, port=None, image=dict(kind="bundled"),
+                        struct=dict(kind="bundled"), overrides=None, cli_args=["--spin%d" % n] if n else [],
+                        kwargs=[["hw_ver", n], ["led0", documented[n]]] if n else [],
+                        times=[1474848000.5 + n, 1474848000.5 + n], tags=["family", "entry:rig-boot"])
+        for n in range(0, 6):
+            histories.append(dict(slots=[], calls=[cli(20 + n, n)]))
+        histories.append(dict(slots=[], calls=[cli(30, 3), cli(31, 0)]))
         # the history of the repaired defect, always
         histories.append(dict(slots=[], calls=[
             dict(via="func", host="127.0.0.1", port=None, image=dict(kind="bundled"), struct=dict(kind="bundled"),
                  overrides=None, kwargs=[], preset_kwargs=3, times=[1474848000.5, 1474848000.9], tags=["fixed:F4"]),
             dict(via="func", host="127.0.0.2", port=None, image=dict(kind="bundled"), struct=dict(kind="bundled"),
                  overrides=None, kwargs=[], times=[1474848001.5, 1474848001.9], tags=["fixed:F4"])]))
+    for h in histories:          # a boot through a controller that names none gets a controller of its own
+        for i, c in enumerate(h["calls"]):
+            if c["via"] == "mc" and c.get("ctrl") is None:
+                c["ctrl"] = 100 + i
     # ---- implementation
     k = max(1, min(12, len(histories) // 4))
     chunks = [histories[i::k] for i in range(k)]
@@ -776,6 +834,34 @@ def run(chk, args):
                                                        o["calls"][i]["datagrams"][1:-1]) else None),
                                    passed_after=o["calls"][i]["passed_after"])))
                 break
+        # every controller's struct definitions describe ITS OWN last boot, also after later boots elsewhere
+        if not any(verdicts):
+            last = {}
+            for i, c in enumerate(h["calls"]):
+                oc = o["calls"][i]
+                if c["via"] == "mc":
+                    key = "c%s" % c["ctrl"]
+                    if oc["result"][0] == "ok" and c.get("_in_domain"):
+                        last[key] = (i, c["_values"])
+                    elif oc["result"][0] == "ok":
+                        last.pop(key, None)
+                bad = None
+                for key, (j, vals) in last.items():
+                    snap = oc["controllers"].get(key)
+                    if snap is None or (snap and snap[0] == "unreadable"):
+                        continue
+                    diff = [(n, d, vals.get(n)) for n, d in snap if vals.get(n) != d]
+                    if diff or len(snap) != len(vals):
+                        bad = (key, j, diff[:3])
+                        break
+                if bad:
+                    chk.fail_input("controller-structs-describe-another-boot",
+                                   "after boot %d of %d the struct definitions of the controller that made boot %d "
+                                   "no longer describe that boot: %s" % (
+                                       i + 1, len(h["calls"]), bad[1] + 1,
+                                       ", ".join("%s is %r, was sent as %r" % d for d in bad[2])),
+                                   dict(history=strip(h), boot=i, controller=bad[0]))
+                    break
         if o["presets_after"] != o["presets_before"]:
             chk.fail_input("preset-mutated", "a spinN_boot_options preset was modified by a boot: %r -> %r"
                            % (o["presets_before"], o["presets_after"]), dict(history=strip(h)))
@@ -806,6 +892,9 @@ def run(chk, args):
             for (h, o), v in zip(good, vals):
                 chk.traces_validated += len(h["calls"])
                 m, im = canon_model(v), canon_impl(h, o)
+                for k_, c_ in enumerate(h["calls"]):     # the command-line tool returns nothing to compare
+                    if c_["via"] == "cli" and k_ < len(m["calls"]) and m["calls"][k_]["result"][0] == "ok":
+                        m["calls"][k_]["result"] = ["cli"]
                 if m != im:
                     bad = (h, o, first_difference(m, im))
                     break
@@ -836,7 +925,9 @@ def run(chk, args):
         "byte / half-word / word variables of the configuration area, as keyword and in sv_overrides: the boot must "
         "refuse, never return normally with an image), options named like parameters of boot()/MachineController.boot "
         "(boot_delay via sv_overrides= through both entry points; a struct whose fields carry every parameter name), "
-        "image and struct files rewritten in place between boots (same path, same size, same second) and the F4 history; thorough tier adds every image size 0,4,...,4200 "
+        "image and struct files rewritten in place between boots (same path, same size, same second), sequences of boots "
+        "through several MachineControllers (with/without structs=, with the deprecated width/height) whose structs "
+        "are re-read after every later boot, the command-line tool rig-boot with each --spinN flag, and the F4 history; thorough tier adds every image size 0,4,...,4200 "
         "and every field of the bundled sv overridden with 0 / max / max+1 / -1 followed by a boot without options; "
         "non-trivial = at least one boot inside "
         "the property's domain succeeded and the history has >= 2 boots or that boot carried options; distinct by "
